@@ -4,12 +4,45 @@ CXX_SOURCES = []
 PROC_TIMEOUT = 900
 COQ_TIMEOUT = 1500
 
-def gen_consts(v):
-    import os
-    return v.gen_consts_cpp(ID, ['ola/web/JsonLexer.h'], [('MAX_DEPTH', 'ola::web::JsonLexer::MAX_DEPTH')],
-                            os.path.join(v.VERIF, 'props', ID, 'coq', 'Gen.v'))
+def _bytes(t):
+    return '[' + '; '.join(str(b) for b in t.encode('latin-1')) + ']'
 
-SPEC_KEYS = (['valid', 'toks', 'str', 'rt', 'back', 'pre', 'eq', 'ok', 'tree', 'w', 'same', 'all', 'dall', 'chk', 'fresh', 'qe', 'ne', 'lt', 'le', 'gt', 'ge', 'pp', 'perr']
+def gen_consts(v):
+    """Gen.v = numeric constants (compiled against the headers) + the message / keyword texts of the
+    lexer, JsonParser and JsonPatchParser extracted from the repository sources."""
+    import os, re
+    tmp = os.path.join(v.BUILD, ID, 'Gen_num.v')
+    err = v.gen_consts_cpp(ID, ['ola/web/JsonLexer.h'], [('MAX_DEPTH', 'ola::web::JsonLexer::MAX_DEPTH')], tmp)
+    if err:
+        return err
+    def src(rel):
+        return open(v.repo_path(rel), encoding='latin-1').read()
+    def uniq(l):
+        out = []
+        for x in l:
+            if x not in out: out.append(x)
+        return out
+    lex = uniq(re.findall(r'SetError\(\s*"([^"]*)"\s*\)', src('common/web/JsonLexer.cpp')))
+    pp = src('common/web/JsonPatchParser.cpp')
+    consts = re.findall(r'const char JsonPatchParser::(k\w+)\[\]\s*=\s*"([^"]*)"', pp)
+    pplit = uniq(re.findall(r'SetError\(\s*"([^"]*)"\s*\)', pp))
+    internal = uniq([x for x in re.findall(r'm_error = "([^"]*)"', src('common/web/JsonParser.cpp')) if x])
+    out = open(tmp).read()
+    out += 'From Coq Require Import List.\nImport ListNotations.\n'
+    out += '(* texts extracted from common/web/JsonLexer.cpp, JsonParser.cpp, JsonPatchParser.cpp *)\n'
+    out += 'Definition LEXER_ERRORS : list (list N) := [%s].\n' % '; '.join(_bytes(t) for t in lex)
+    out += 'Definition PARSER_ERRORS : list (list N) := [%s].\n' % '; '.join(_bytes(t) for t in internal)
+    out += 'Definition PATCHPARSER_ERRORS : list (list N) := [%s].\n' % '; '.join(_bytes(t) for t in pplit)
+    for name, text in consts:
+        out += 'Definition PP_%s : list N := %s.\n' % (name, _bytes(text))
+    gen = os.path.join(v.VERIF, 'props', ID, 'coq', 'Gen.v')
+    old = open(gen).read() if os.path.exists(gen) else None
+    if out != old:
+        with open(gen, 'w') as f:
+            f.write(out)
+    return None
+
+SPEC_KEYS = (['valid', 'toks', 'str', 'rt', 'back', 'pre', 'eq', 'ok', 'tree', 'w', 'same', 'all', 'dall', 'chk', 'fresh', 'qe', 'ne', 'lt', 'le', 'gt', 'ge', 'pp', 'perr', 'herr', 'claim']
              + ['p%d' % i for i in range(16)]
              + ['r%d' % i for i in range(16)] + ['d%d' % i for i in range(16)])
 INTERNAL_KEYS = []          # 'err' (message text) and 'wl' are compared but are not property-determined
@@ -21,6 +54,7 @@ RULE = ('pointer token lists over {~ / 0 1 a "" ~0 ~1 ~01 ...} (all lists up to 
         'per-case watchdog, an exact-length sweep (every document size 1..4200 and 2^k-1..2^k+1 up to 65537), sequences of '
         'operator==/!=/</<=/>/>= on every pair of integer node kinds at 0, +-1, 2^31, 2^32, 2^63, 2^64 boundaries and their '
         '2^32/2^63/2^64 aliases in both orders (bare, inside containers, in patch test ops), sequences of '
+        'the JsonParser handler interface driven directly by arbitrary, also ill-nested, event sequences (root compared after every event), '
         'JSON Patch documents as TEXT through JsonPatchParser (well-formed, member order shuffled, duplicate/missing/wrongly '
         'typed members, unknown ops, non-object elements, non-array documents, truncations) applied to generated targets, sequences of '
         'texts through ONE long-lived JsonParser (failing inside open containers at every depth, then valid), mutated documents, random '
@@ -30,8 +64,9 @@ RULE = ('pointer token lists over {~ / 0 1 a "" ~0 ~1 ~01 ...} (all lists up to 
         'round-trips / patch applied and changed the document; distinct = distinct model output line')
 ASSUMPTIONS = ['operator new does not fail', 'C locale (isprint/isdigit)', 'JsonData without a schema validator',
                'patch operations carry a value (the NULL-value constructors of add/replace/test are not driven)']
-TRUSTED = ['modelled rather than verified: JsonPointer.cpp (all), JsonLexer.cpp (all), JsonParser.cpp (handler '
-           'stacks folded into direct tree construction), JsonWriter.cpp + StringUtils Escape/EncodeString, '
+TRUSTED = ['modelled rather than verified: JsonPointer.cpp (all), JsonLexer.cpp (all), JsonParser.cpp (for texts: handler '
+           'stacks folded into direct tree construction; the handler stack machine itself is modelled separately as h_step and '
+           'compared on arbitrary event sequences, its agreement with the direct construction on lexer-produced sequences is not proved), JsonWriter.cpp + StringUtils Escape/EncodeString, '
            'JsonDouble::AsString, Json.cpp LookupElement*/InsertElementAt/RemoveElementAt/ReplaceElementAt/'
            'operator== for non-double values, JsonPatch.cpp (all ops), JsonData::Apply; '
            'JsonPatchParser.cpp (handler as a function of the parsed document with document-order members); NOT modelled: JsonDouble::AsDouble (floating point/pow; its termination in time independent of the exponent value '
@@ -169,7 +204,8 @@ DBL_FIXED = ['-0', '-0.0', '0e0', '1e400', '1e-400', '-1e400', '1E+400', '25e123
              '1e4294967296', '1e4294967297', '7e2000000000', '7e-2000000000', '1e18446744073709551615',
              '1e-18446744073709551615', '1e18446744073709551616', '1e99999999999999999999', '0.' + '0' * 30 + '1',
              '0.' + '0' * 400 + '1', '1.' + '0' * 50, '1.' + '9' * 40, '9' * 40 + '.5', '1' + '0' * 30 + 'e-30',
-             '0.000', '0.0001e4', '12.0340', '1.5E3', '00.5', '1.e5', '1.5e', '1.5e+', '-.5', '1.2.3', '1e5e5', '1e5.5']
+             '-18446744073709551615.0', '-9223372036854775809.0', '-9223372036854775808.0', '-9223372036854775808.0e0',
+             '5.000e0', '0.000', '0.0001e4', '12.0340', '1.5E3', '00.5', '1.e5', '1.5e', '1.5e+', '-.5', '1.2.3', '1e5e5', '1e5.5']
 
 def rand_double_text(rng):
     s = '-' if rng.random() < 0.3 else ''
@@ -482,6 +518,33 @@ def gen_cases(rng, tier):
     # equality / ordering of numeric nodes at the 32/64-bit boundaries, every pair of kinds, both orders
     for x, y in gen_cmp(rng, quick):
         yield 'cmp %s %s' % (x, y)
+    # the JsonParser handler interface driven directly with arbitrary (also ill-nested) event sequences
+    EVK = ['6b', '61', '-', '6b32']
+    def rand_events():
+        ev = []
+        depth = []
+        if rng.random() < 0.7: ev.append('B')
+        for _ in range(rng.randrange(1, 14)):
+            r = rng.random()
+            if r < 0.30:
+                ev.append(rng.choice(['u1', 'i-1', 'U18446744073709551615', 'I-5', 's61', 's-', 't', 'f', 'n']))
+            elif r < 0.45: ev.append('['); depth.append('[')
+            elif r < 0.58: ev.append('{'); depth.append('{')
+            elif r < 0.72: ev.append('k' + rng.choice(EVK))
+            elif r < 0.88:
+                if depth and rng.random() < 0.75:
+                    ev.append(']' if depth.pop() == '[' else '}')       # matching close
+                else:
+                    ev.append(rng.choice([']', '}']))                   # possibly mismatched / unbalanced
+            elif r < 0.93: ev.append('E'); depth = []
+            elif r < 0.97: ev.append('B'); depth = []
+            else: ev.append('X')
+        return ev[:15]
+    for _ in range(600 if quick else 30000):
+        yield 'ev ' + ','.join(rand_events())
+    for fixed in ['u1,u2', '[,],u1', '[,},]', '{,],}', '],}', '{,k6b,[,k61,u1,],k6b,{,},}', '[,[,E,u1,[,]', 'B,[,u1,B,u2',
+                  '{,k6b,u1,k6b,[,u2,],k6b,{,}', '[,{,k61,[,{,E', '{,u1,u2,}', 'E,E,u1,E', '[,X,],B,[,]', 'k61,u1,{,}']:
+        yield 'ev ' + fixed
     # patch documents given as text through JsonPatchParser
     for _ in range(900 if quick else 40000):
         yield gen_pdoc(rng)
@@ -500,6 +563,7 @@ def nontrivial(payload, md):
     op = payload.split(' ', 1)[0]
     if op in ('ptr', 'ptrt'): return md.get('valid') == '1' and md.get('rt') == '1'
     if op == 'pre': return md.get('pre') == '1'
+    if op == 'ev': return md.get('claim', 'null') != 'null'
     if op == 'pdoc': return md.get('pp') == '1' and md.get('all') == '1'
     if op == 'cmp': return md.get('eq') == '1' or md.get('lt') == '1'
     if op in ('parse', 'deep', 'len'): return md.get('ok') == '1'
